@@ -26,8 +26,9 @@
    (AttributeError; the object must be unchanged) -, EditDict (the caller changes the dictionary it
    passed earlier), NewChannel, SolveBD(block_diagonalize | block_diagonalize_no_waterfilling | the
    module-level block_diagonalize), SolveExt (block_diagonalize_no_waterfilling(mu_channel) of
-   WhiteningBD / EnhancedBD), CalcReceiveFilter (static method | module function), Scribble (the
-   caller overwrites the arrays it got back).
+   WhiteningBD / EnhancedBD), CalcWhitening (calc_whitening_matrices of the same two classes),
+   CalcReceiveFilter (static method | module function), Scribble (the caller overwrites the arrays it
+   got back).
 
    Sweep = TRUE  restricts the machine to the canonical order Construct, SetMetric?, NewChannel,
                  Solve, CalcReceiveFilter? : one path per configuration (the configuration sweep).
@@ -197,6 +198,14 @@ SolveExt ==
   /\ UNCHANGED <<obj, alias, chan>>
   /\ Step("SolveExt", <<>>, "ok")
 
+\* calc_whitening_matrices(mu_channel) of the classes that handle external interference
+CalcWhitening ==
+  /\ "CalcWhitening" \in Acts /\ obj.cls \in {"WBD", "EBD"} /\ chan.N > 0 /\ chan.rE > 0
+  /\ Sweep => (last = NoLast /\ metric = NoMetric)
+  /\ last' = [NoLast EXCEPT !.op = "whiten", !.N = chan.N, !.rE = chan.rE, !.onCur = TRUE]
+  /\ UNCHANGED <<obj, metric, alias, chan>>
+  /\ Step("CalcWhitening", <<>>, "ok")
+
 \* calc_receive_filter(newH) on the effective channel returned by the last plain solve
 CalcReceiveFilter(how) ==
   /\ "CalcReceiveFilter" \in Acts /\ last.op \in BDops
@@ -219,16 +228,21 @@ DoSetMetric == obj.cls = "EBD" /\ \E name \in MetricNames \cup {"lala"} : \E a \
 DoNewChannel == obj # NoObj /\ \E N \in Ants : \E rE \in Ranks \cup {0} : NewChannel(N, rE)
 DoSolveBD == \E op \in BDops : SolveBD(op)
 DoCalcReceiveFilter == \E how \in {"static", "module"} : CalcReceiveFilter(how)
-Next == DoConstruct \/ DoSetMetric \/ EditDict \/ DoNewChannel \/ DoSolveBD \/ SolveExt \/ DoCalcReceiveFilter \/ Scribble
+Next == DoConstruct \/ DoSetMetric \/ EditDict \/ DoNewChannel \/ DoSolveBD \/ SolveExt \/ CalcWhitening \/ DoCalcReceiveFilter \/ Scribble
 Spec == Init /\ [][Next]_vars
 
 (* ---------------------------------- what the property requires --------------------------------- *)
 \* the predicates of the property that must hold for what was last computed (evaluated numerically, (rel))
 ReqOf(o, l) ==
   IF l.op = "none" THEN {}
+  ELSE IF l.op = "whiten" THEN {"WhiteningFiltersWhitenExtIntPlusNoise", "InputsUntouched"}
   ELSE IF l.op \in BDops THEN
-         {"EffectiveChannelBlockDiagonal", "ReturnedChannelIsChannelTimesPrecoder", "PowerLePerUser", "SameAsFreshObject", "InputsUntouched"}
-         \cup (IF l.op = "bd_nowf" THEN {"PowerEqPerUser"} ELSE {"PowerReachedByOne"})
+         {"EffectiveChannelBlockDiagonal", "ReturnedChannelIsChannelTimesPrecoder", "PowerLePerUser", "SameAsFreshObject", "InputsUntouched",
+          "EffectiveStreamsOrthogonal"}      \* (beyond the statement: the streams of a user are the eigenmodes of its channel)
+         \* with water-filling: at most the power per user, reached by one; the powered streams share one water level
+         \* for the total power K * p (the interplay of the global water-filling with the normalisation; the allocation
+         \* rule itself is C12's)
+         \cup (IF l.op = "bd_nowf" THEN {"PowerEqPerUser"} ELSE {"PowerReachedByOne", "WaterLevelCommonOnPoweredStreams"})
          \cup (IF l.filt THEN {"ReceiveFilterInvertsOnPoweredStreams"} ELSE {})
   ELSE {"InterUserNullWithExtInt", "PowerEqPerUser", "StreamCountsMatchPrecoders", "ReceiveFilterInvertsOnPoweredStreams",
         "SameAsFreshObject", "InputsUntouched"}
@@ -251,7 +265,7 @@ TypeOK ==
   /\ metric \in [name : MetricNames, ns : 0..3, mod : {"none"} \cup Mods, plen : {0} \cup PLens]
   /\ alias \in BOOLEAN
   /\ chan \in [N : {0} \cup Ants, rE : {0} \cup Ranks, intact : BOOLEAN]
-  /\ last.op \in {"none"} \cup BDops \cup ExtOps /\ last.kind \in {"none", "all", "fixed", "decided"}
+  /\ last.op \in {"none", "whiten"} \cup BDops \cup ExtOps /\ last.kind \in {"none", "all", "fixed", "decided"}
   /\ obj.cls # "EBD" => metric = NoMetric
 
 \* the stored extra arguments are exactly the ones the metric needs
@@ -267,8 +281,8 @@ PowerRules == {"PowerEqPerUser", "PowerReachedByOne"}
 RequiredAfterSolve ==
   last.op # "none" =>
     /\ Required # {}
-    /\ Cardinality(Required \cap PowerRules) = 1
-    /\ Cardinality(Required \cap {"EffectiveChannelBlockDiagonal", "InterUserNullWithExtInt"}) = 1
+    /\ last.op # "whiten" => Cardinality(Required \cap PowerRules) = 1
+    /\ last.op # "whiten" => Cardinality(Required \cap {"EffectiveChannelBlockDiagonal", "InterUserNullWithExtInt"}) = 1
     /\ last.op \in ExtOps => Cardinality(Required \cap {"AllStreamsKept", "StreamCountIsNumStreams", "StreamCountInRange"}) = 1
     /\ "ExtIntRemovedWhenEnoughStreamsSacrificed" \in Required =>
          last.op = "ebd" /\ last.mname # "naive" /\ last.kind # "all" /\ last.N > last.rE
@@ -281,7 +295,7 @@ SolveUsesCurrentMetric ==
   [][ret'.op = "SolveExt" =>
        /\ last'.N = chan.N /\ last'.rE = chan.rE
        /\ last' = ExtResult(obj, metric, chan)]_vars
-SolveLeavesConfig == [][ret'.op \in {"SolveExt", "SolveBD", "CalcReceiveFilter"} => UNCHANGED <<obj, metric, alias, chan>>]_vars
+SolveLeavesConfig == [][ret'.op \in {"SolveExt", "SolveBD", "CalcReceiveFilter", "CalcWhitening"} => UNCHANGED <<obj, metric, alias, chan>>]_vars
 
 (* ---------------------------------- emission ------------------------------------------------------ *)
 StateRec  == [obj |-> obj, metric |-> metric, alias |-> alias, chan |-> chan, last |-> last]
